@@ -406,7 +406,68 @@ def rule_no_stale_cache_(ctx: Ctx, rep: Report) -> None:
     rule_no_stale_cache(ctx, rep, "C18.no_stale_cache", ('btclib.tx', 'btclib.psbt', 'btclib.amount'), 1)
 
 
+def rule_multisig_m(ctx: Ctx, rep: Report) -> None:
+    """C18.multisig_m: the number of signatures a bare multisig spend pushes is
+    the m of its OP_m, and OP_1..OP_16 are the bytes 0x51..0x60: the expression
+    psbt_size computes m with, evaluated at each of the sixteen bytes, gives
+    1..16. (`& 0x0F` agrees on fifteen of them and answers 0 for OP_16.)"""
+    rule = "C18.multisig_m"
+    fi = ctx.func("btclib.psbt.psbt_size._solution_sizes")
+    params = fi.params()
+    cands = [a for a in own_nodes(fi.node) if isinstance(a, ast.Assign) and isinstance(a.targets[0], ast.Name)
+             and any(isinstance(x, ast.Subscript) and isinstance(x.value, ast.Name) and x.value.id in params and ctx.fold(x.slice, fi.module) == 0 for x in ast.walk(a.value))]
+    used = [a for a in cands if any(isinstance(m, ast.BinOp) and isinstance(m.op, ast.Mult) and any(isinstance(y, ast.Name) and y.id == a.targets[0].id for y in (m.left, m.right)) for m in own_nodes(fi.node))]
+    if len(used) != 1:
+        rep.unknown(rule, "_solution_sizes:m", fi.where(), f"{len(used)} candidates for the signature count")
+        return
+    a = used[0]
+    sub = [x for x in ast.walk(a.value) if isinstance(x, ast.Subscript) and isinstance(x.value, ast.Name) and x.value.id in params][0]
+    text = str(norm(a.value))
+    bad = []
+    for b in range(0x51, 0x61):
+        e = ast.parse(text.replace(str(norm(sub)), str(b)), mode="eval").body
+        v = ctx.fold(e, fi.module)
+        if v != b - 0x50:
+            bad.append(f"OP_{b - 0x50} (0x{b:02x}) -> {v!r}")
+    rep.ob(rule, "_solution_sizes:m", not bad, fi.where(a), f"`{text}` is 1..16 on OP_1..OP_16" if not bad else f"`{text}`: {', '.join(bad[:3])}: the size of a 16-of-16 spend is estimated with no signature")
+    rep.floor(rule, 1)
+
+
+def rule_amount_precision(ctx: Ctx, rep: Report) -> None:
+    """C18.amount_precision: MAX_MONEY is 2 099 999 997 690 000 satoshi, sixteen
+    digits: a decimal context the amount conversions set up for themselves
+    carries at least that many (the default 28 does), or the product is rounded
+    and btc_from_sats(sats_from_btc(x)) is another amount. Any `prec` stored
+    into a context in btclib.amount is compared with the digits of MAX_MONEY."""
+    rule = "C18.amount_precision"
+    mi = ctx.module("btclib.amount")
+    mm = ctx.const("btclib.amount", "MAX_MONEY")
+    if not isinstance(mm, int):
+        mm = ctx.fold(ast.parse("MAX_MONEY", mode="eval").body, mi)
+    need = len(str(mm)) if isinstance(mm, int) else 16
+    n = 0
+    for q, fi in sorted(mi.functions.items()):
+        for a in own_nodes(fi.node):
+            if isinstance(a, ast.Assign) and any(isinstance(t, ast.Attribute) and t.attr == "prec" for t in a.targets):
+                v = ctx.fold(a.value, mi)
+                n += 1
+                ok = isinstance(v, int) and v >= need
+                rep.ob(rule, f"{fi.qualname}:prec", ok, fi.where(a), f"precision {v} holds the {need} digits of MAX_MONEY" if ok else
+                       f"`{norm(a)}`: MAX_MONEY has {need} digits; amounts above 10^{v} satoshi are rounded by the conversion")
+            if isinstance(a, ast.Call) and call_name(a) in ("Context", "localcontext", "setcontext", "getcontext"):
+                for k in a.keywords:
+                    if k.arg == "prec":
+                        v = ctx.fold(k.value, mi)
+                        n += 1
+                        ok = isinstance(v, int) and v >= need
+                        rep.ob(rule, f"{fi.qualname}:prec", ok, fi.where(a), f"precision {v}" if ok else f"`{norm(a)[:60]}`: MAX_MONEY has {need} digits")
+    rep.ob(rule, "scanned", True, "btclib/amount.py:1", f"{n} precisions set in btclib.amount; {need} digits needed")
+    rep.floor(rule, 1)
+
+
 RULES = [
+    ("C18.multisig_m", rule_multisig_m),
+    ("C18.amount_precision", rule_amount_precision),
     ("C18.no_stale_cache", rule_no_stale_cache_),
 
     ("C18.finalized_predicate", rule_finalized_predicate),
@@ -422,6 +483,12 @@ RULES = [
 ]
 
 CONTROLS = [
+    {"rule": "C18.amount_precision", "name": "btc_from_sats pins fifteen digits", "module": "btclib.amount",
+     "edit": lambda ctx: M.sub_expr(ctx, "btclib.amount.btc_from_sats", lambda n: isinstance(n, ast.Assign) and "traps" in norm(n.targets[0]),
+                                    lambda n: norm(n) + "\n        " + norm(n.targets[0]).split(".")[0] + ".prec = 15")},
+    {"rule": "C18.multisig_m", "name": "m read off the low four bits of OP_m", "module": "btclib.psbt.psbt_size",
+     "edit": lambda ctx: M.sub_expr(ctx, "btclib.psbt.psbt_size._solution_sizes", lambda n: isinstance(n, ast.BinOp) and isinstance(n.op, ast.Sub) and "payload[0]" in norm(n.left), "payload[0] & 0x0F")},
+
     {"rule": "C18.no_stale_cache", "name": "the weight of a mutable transaction is computed once", "module": "btclib.tx.tx",
      "edit": lambda ctx: M.sub_module_expr(ctx, "btclib.tx.tx", lambda n: isinstance(n, ast.Name) and n.id == "property" and isinstance(parent(n), ast.FunctionDef) and parent(n).name == "weight",
                                            "__import__('functools').cached_property")},
